@@ -98,6 +98,28 @@ Theorem C01_read_returns_the_stream :
 Proof. exact read_all_conserves. Qed.
 Print Assumptions C01_read_returns_the_stream.
 
+(** read(n), no search window: the NEXT n characters are returned (at EOF: whatever was left, and nothing stays pending),
+    nothing in front of them is skipped, what follows stays pending; read(0) reads nothing.  The premise about '.{n}' is a
+    law of the regex engine (DOTALL: any n characters), proved for the executable engine below. *)
+Theorem C01_read_n_returns_the_stream :
+  forall (rx : Type) (re_search : rx -> text -> nat -> option (nat * nat)) (dot_n : nat -> rx) (Wd : option nat),
+  (forall r t p a b, re_search r t p = Some (a, b) -> a <= b) ->
+  match Wd with Some w => 1 <= w | None => True end ->
+  (forall n w a b, re_search (dot_n n) w 0 = Some (a, b) -> a = 0 /\ b = n /\ n <= length w) ->
+  forall n s evs, Wd = None -> Inv s ->
+  match read_n rx re_search dot_n Wd n s evs with (r, s', e') =>
+    exists used, evs = used ++ e' /\ Inv s' /\
+    match r with
+    | WText t => t ++ pend s' = pend s ++ data_of used /\ (length t = n \/ pend s' = [])
+    | WRaise _ => pend s' = pend s ++ data_of used
+    end
+  end.
+Proof. exact read_n_conserves. Qed.
+Print Assumptions C01_read_n_returns_the_stream.
+Theorem C01_engine_dot : forall n t a b, rx_search (Rep n Any) t 0 = Some (a, b) -> a = 0 /\ b = n /\ n <= length t.
+Proof. exact rx_search_dot. Qed.
+Print Assumptions C01_engine_dot.
+
 (** the executable engine satisfies the premise about '\r\n' (indeed about every literal) *)
 Theorem C01_engine_literal : forall s t pos a b, rx_search (Lit s) t pos = Some (a, b) ->
   b = a + length s /\ firstn (b - a) (skipn a t) = s.
